@@ -26,6 +26,12 @@ ORDERED = {"BTreeMap", "BTreeSet", "IndexMap", "IndexSet"}
 ITER_METHODS = {"iter", "into_iter", "iter_mut", "drain", "keys", "values", "values_mut", "into_keys", "into_values",
                 "retain", "extract_if"}
 TEMPLATE_MACROS = {"quote", "quote_spanned", "parse_quote", "parse_quote_spanned"}
+# reading the POSITION out of a span (using a span as an error location / in quote_spanned! is not reading it)
+SPAN_READS = {"byte_range", "source_text", "source_file", "local_file"}
+SPAN_READS_NEAR = {"start", "end", "line", "column", "file", "unwrap"}
+ORDER_METHODS = {"sort_by", "sort_by_key", "sort_by_cached_key", "sort_unstable_by", "sort_unstable_by_key", "dedup_by",
+                 "dedup_by_key", "binary_search_by", "binary_search_by_key", "max_by", "max_by_key", "min_by", "min_by_key",
+                 "cmp", "partial_cmp", "is_sorted_by", "is_sorted_by_key"}
 INTERIOR = {"RefCell", "Cell", "UnsafeCell", "Mutex", "RwLock", "OnceCell", "OnceLock", "LazyCell", "LazyLock",
             "Condvar", "Once"}
 FORMAT_MACROS = {"format", "write", "writeln", "print", "println", "eprint", "eprintln", "panic", "format_args",
@@ -562,6 +568,32 @@ def scan_body(fs, items, modpath, uses, local_types):
                 st = "SFs"
             elif x in ("as_ptr", "as_mut_ptr", "addr_of", "addr_of_mut"):
                 st = "SAddress"
+            elif x in SPAN_READS and k >= 1 and is_p(flat[k - 1], ".") and nxt is not None and nxt.kind == "open":
+                st = "SSpanRead"
+            elif x in SPAN_READS_NEAR and k >= 1 and is_p(flat[k - 1], ".") and nxt is not None and nxt.kind == "open" \
+                    and any(is_id(flat[q]) and "span" in flat[q].text.lower() for q in range(max(0, k - 5), k)):
+                st = "SSpanRead"
+            elif x in ORDER_METHODS and k >= 1 and is_p(flat[k - 1], ".") and nxt is not None and nxt.kind == "open":
+                # ordering keyed on Debug output / spans / addresses
+                d = 0
+                j = k + 1
+                hit = False
+                while j < len(flat):
+                    if flat[j].kind == "open":
+                        d += 1
+                    elif flat[j].kind == "close":
+                        d -= 1
+                        if d == 0:
+                            break
+                    elif flat[j].kind == "str" and re.search(r":[^{}]*\?\}", flat[j].value or ""):
+                        hit = True
+                    elif is_id(flat[j]) and (flat[j].text in ("Debug", "Span", "as_ptr", "addr_of") or "span" in flat[j].text.lower()):
+                        hit = True
+                    elif is_p(flat[j], "*") and j + 1 < len(flat) and is_id(flat[j + 1], "const"):
+                        hit = True
+                    j += 1
+                if hit:
+                    st = "SOrderKey"
             elif x == "leak" and k >= 1 and (is_p(flat[k - 1], ".") or is_p(flat[k - 1], ":")):
                 st = "SStatic"            # Box::leak / Vec::leak: a value that outlives the expansion
             elif x in ("set_var", "remove_var", "set_current_dir"):
@@ -579,6 +611,12 @@ def scan_body(fs, items, modpath, uses, local_types):
                             break
                     elif flat[j].kind == "str" and d == 1 and re.search(r"\{[^{}]*:[^{}]*p\}", flat[j].value or ""):
                         fs.state.append({"kind": "SPointerFmt", "line": flat[j].line, "text": flat[j].text,
+                                         "in_template": in_tpl[k]})
+                    elif flat[j].kind == "str" and d == 1 and x != "format_ident" \
+                            and re.search(r"\{[^{}]*:[^{}]*\?\}", flat[j].value or ""):
+                        # Debug formatting inside the macro: `Debug` of syn / proc_macro2 values prints SPANS under the
+                        # real compiler (`Ident { ident: "Box", span: #0 bytes(86..89) }`): the position of the item
+                        fs.state.append({"kind": "SDebugFmt", "line": flat[j].line, "text": flat[j].text,
                                          "in_template": in_tpl[k]})
                     j += 1
         elif is_p(t, "*") and nxt is not None and is_id(nxt, "const") and k >= 1 and is_id(flat[k - 1], "as"):
